@@ -1,11 +1,16 @@
 """Which module decides which property."""
-from . import corecheck
+from . import codec, corecheck, race
 
 CHECKS = {p: corecheck.check for p in corecheck.PROPS}
+CHECKS.update({"C01": codec.check, "C02": codec.check, "C09": race.check})
 
 
 def replay(doc: dict) -> int:
     kind = doc.get("kind")
     if kind == "gateway-history":
         return corecheck.replay(doc)
+    if kind == "race-schedule":
+        return race.replay(doc)
+    if kind == "codec-case":
+        return codec.replay(doc)
     raise SystemExit(f"unknown replay kind {kind}")
